@@ -1431,8 +1431,15 @@ fn resolve_names_pat(
             if !prefixes.is_empty() {
                 let mut final_namespace: Option<Rc<Namespace>> =
                     symbol_table.lookup_namespace(&prefixes[0].v);
+                // a qualifier that names a declaration (the enum) resolves to it
+                if let Some(decl) = symbol_table.lookup_declaration(&prefixes[0].v) {
+                    ctx.resolution_map.insert(prefixes[0].id, decl);
+                }
                 for prefix in &prefixes[1..] {
                     if let Some(ns) = final_namespace {
+                        if let Some(decl) = ns.declarations.get(&prefix.v) {
+                            ctx.resolution_map.insert(prefix.id, decl.clone());
+                        }
                         final_namespace = ns.namespaces.get(&prefix.v).cloned();
                     }
                 }
